@@ -122,7 +122,52 @@ def set_repr_only(x, y):
   return x == y
 
 
+def normalise_set_displays(s):
+  """Every `{...}` group of s that is the display of a set of literals, rewritten with sorted elements."""
+  import re
+  def split_top(body):
+    """Elements of a display body split at top-level commas; None if it looks like a dict (top-level colon)."""
+    out, cur, depth, quote, i = [], [], 0, None, 0
+    while i < len(body):
+      ch = body[i]
+      if quote:
+        cur.append(ch)
+        if ch == '\\' and i + 1 < len(body):
+          cur.append(body[i + 1])
+          i += 1
+        elif ch == quote:
+          quote = None
+      elif ch in '\'"':
+        quote = ch
+        cur.append(ch)
+      elif ch in '([':
+        depth += 1
+        cur.append(ch)
+      elif ch in ')]':
+        depth -= 1
+        cur.append(ch)
+      elif ch == ':' and depth == 0:
+        return None
+      elif ch == ',' and depth == 0:
+        out.append(''.join(cur).strip())
+        cur = []
+      else:
+        cur.append(ch)
+      i += 1
+    if ''.join(cur).strip():
+      out.append(''.join(cur).strip())
+    return out
+  def fix(m):
+    parts = split_top(m.group(0)[1:-1])
+    if parts is None or len(parts) < 2:
+      return m.group(0)
+    return '{' + ', '.join(sorted(parts)) + '}'
+  return re.sub(r'\{[^{}]*\}', fix, s)
+
+
 def same_set_repr(a, b):
+  if a != b and normalise_set_displays(a) == normalise_set_displays(b):
+    return True      # also covers text a formula built around str(set): the set's text is the only difference
   def parse(s):
     for pre in ('frozenset(', 'set('):
       if s.startswith(pre) and s.endswith(')'):
